@@ -1,8 +1,8 @@
 (* C18 - iwpool_alloc / iwpool_calloc / iwpool_strndup of src/utils/iwpool.c with the request as a size_t VALUE (a Z below
    2^64), for requests near SIZE_MAX.  UT/Pool.v works with natural numbers and leaves the size_t arithmetic out; here it is
    in: IW_ROUNDUP(siz, 8) = (siz + 7) & ~7 computed modulo 2^64 wraps to 0 for siz in (SIZE_MAX - 7, SIZE_MAX].
-   Flag `guard`: true = the code with the overflow guard of fixes/cont-pool-alloc-size-wrap.diff
-   (`if (siz > SIZE_T_MAX - 7) return 0;` and `len < SIZE_T_MAX` in iwpool_strndup), false = the code without it.
+   Flag `guard`: true = the code (since fix 435f237, fixes/cont-pool-alloc-size-wrap.diff: `if (siz > SIZE_T_MAX - 7) return 0;`
+   and `len < SIZE_T_MAX` in iwpool_strndup), false = the code before that fix, kept for the refutation theorems.
    Requests above MALLOC_MAX = PTRDIFF_MAX that do not wrap always fail: either one of the two SIZE_T_MAX checks of
    iwpool_alloc fires or iwpool_extend asks malloc for more than PTRDIFF_MAX bytes, which glibc refuses (pool unchanged).
    Requests up to MALLOC_MAX are the arithmetic of UT/Pool.v (the harness uses only small ones: whether malloc grants a huge
